@@ -59,6 +59,17 @@ Final(c) == UNION {ApplyOp(st, c.s, c.ops[2]) : st \in ApplyOp(St(0, c.n - 1, 0.
 (* -999999 encodes a value that is not an integer, e.g. NaN), startb, stopb *)
 (* (the interval ends as passed, bit patterns; zeros for width calls)]      *)
 (***************************************************************************)
+\* Sample values travel as integers; values that are not integers are coded: NaN, +inf, -inf (anything else: -999999).
+\* An extend case may say (c.sv, one code per original sample: 0 number, 1 NaN, 2 +inf, 3 -inf) that some ORIGINAL samples
+\* hold such a value: "keeping every original sample" means a NaN original is still NaN afterwards; fills are finite.
+NaNCode == -999901
+SpecialCode(k) == -999900 - k
+Datum(c, j) == IF "sv" \in DOMAIN c THEN (IF c.sv[j + 1] = 0 THEN j + 1 ELSE SpecialCode(c.sv[j + 1])) ELSE j + 1     \* original sample j
+\* Width calls may operate on one dimension of a 2-D array (c.od = size of the other dimension, 0: the array is 1-D; c.ax = 1, 2:
+\* the operated dimension comes first / second).  out.rows[k] is the data along the operated dimension at index k-1 of the
+\* other one, where sample i holds i + 1 + 100*(k-1); every such row is judged (1-D: the single row out.data).
+Rows(r) == IF "rows" \in DOMAIN r THEN r.rows ELSE <<r.data>>
+
 Clauses17 == {"Returns", "CoordsKept",
               "CropExactly",
               "ExtendLatticePoints", "ExtendOldKept", "ExtendNewFill", "ExtendOpenEndExcluded",
@@ -78,7 +89,7 @@ HoldsCrop(cl, c, r) ==
 \* candidate extents that explain the observed number of samples
 ExtW(c, r) == {w \in Extents(c.s, c.ms, c.me, c.lc, c.rc) : Len(r.data) = w[2] - w[1] + 1}
 LatIdx(w, t) == w[1] + t - 1                                     \* lattice index of output sample t
-Placed(c, r, w) == \A j \in 0..(c.n - 1) : LET t == j - w[1] + 1 IN t \in 1..Len(r.data) /\ r.data[t] = j + 1
+Placed(c, r, w) == \A j \in 0..(c.n - 1) : LET t == j - w[1] + 1 IN t \in 1..Len(r.data) /\ r.data[t] = Datum(c, j)
 HoldsExtend(cl, c, r) ==
     LET W == ExtW(c, r)  L == Len(r.data) IN
     CASE cl = "ExtendLatticePoints" ->
@@ -97,12 +108,14 @@ HoldsExtend(cl, c, r) ==
       [] OTHER -> TRUE
 
 HoldsWidth(cl, c, r) ==
-    LET L == Len(r.data) IN
-    CASE cl = "ExactlyWidth"   -> L = c.w
+    LET R == Rows(r) IN
+    CASE cl = "ExactlyWidth"   -> Len(R) >= 1 /\ \A k \in 1..Len(R) : Len(R[k]) = c.w
       [] cl = "BlockPlacement" ->
+            Len(R) >= 1 /\ \A k \in 1..Len(R) :
+            LET row == R[k]  L == Len(R[k])  base == 100 * (k - 1) IN
             IF c.w >= c.n
-            THEN L >= c.n /\ \E off \in Offs(c.pos, L - c.n) : \A j \in 0..(c.n - 1) : r.data[off + j + 1] = j + 1
-            ELSE L <= c.n /\ \E off \in Offs(c.pos, c.n - L) : \A t \in 1..L : r.data[t] = off + t
+            THEN L >= c.n /\ \E off \in Offs(c.pos, L - c.n) : \A j \in 0..(c.n - 1) : row[off + j + 1] = j + 1 + base
+            ELSE L <= c.n /\ \E off \in Offs(c.pos, c.n - L) : \A t \in 1..L : row[t] = off + t + base
       [] OTHER -> TRUE
 
 \* chains: the final result is judged by the same clauses against the original lattice
